@@ -169,7 +169,7 @@ func isMarker(data []byte) (name string, after []byte) {
 			data = data[:len(data)-1]
 		}
 	}
-	if !bytes.HasSuffix(data, markerEnd) {
+	if !(bytes.HasSuffix(data, markerEnd) && len(data) >= len(marker)+len(markerEnd)) {
 		return "", nil
 	}
 	return strings.TrimSpace(string(data[len(marker) : len(data)-len(markerEnd)])), after
